@@ -240,3 +240,79 @@ def g237_field_zero_cases(ctx, cfg_name, prog, rule='R-GUARD'):
         ctx.ob(rule + '/G7', ok, 'G7|Fr::square_root', loc_str(f),
                'Fr::square_root: for a = 0 the Tonelli-Shanks loop `while (!t.is_one())` never ends (t stays 0); it must be '
                'on the non-zero edge of a.is_zero()', cfg=cfg_name, sample=dict(config=cfg_name, loops=len(loops)))
+
+
+# ---------------------------------------------------------------- R-CANON (C02): conditional final subtraction / add-back
+def _walk_cfg(g, start, oracle):
+    """follow the CFG from `start` with `oracle(cond node) -> bool`; returns the list of visited node ids (functions here are loop-free)"""
+    seen = []
+    cur = start
+    steps = 0
+    while cur is not None and steps < 500:
+        steps += 1
+        seen.append(cur)
+        n = g.nodes[cur]
+        if not n.succ:
+            break
+        if n.kind == 'cond':
+            v = oracle(n)
+            nxt = [y for (y, lab) in n.succ if lab == v]
+            cur = nxt[0] if nxt else None
+        else:
+            cur = n.succ[0][0]
+    return seen
+
+
+def canon_tables(ctx, cfg_name, prog, rule='R-CANON'):
+    from .reject import cond_with_call_value
+    specs = [
+        # (function, name of the call that must be conditional, arg role check, expected predicate over (cmp, flag))
+        ('embedded_pairing::core::FpBase::add', 'subtract', lambda cmp, fl: cmp >= 0 or fl),
+        ('embedded_pairing::core::FpBase::multiply2', 'subtract', lambda cmp, fl: cmp >= 0 or fl),
+        ('embedded_pairing::core::FpBase::subtract', 'add', lambda cmp, fl: fl),
+        ('embedded_pairing::core::FpBase::reduce', 'subtract', lambda cmp, fl: cmp >= 0),
+    ]
+    n = 0
+    for qn, fix, want in specs:
+        fs = [f for f in pr.functions_named(prog, qn) if not any(c.get('externC') and 'body' not in (prog.callee(c, f) or {'body': 1})
+                                                                 for c in []) ]
+        fs = [f for f in fs if not all((prog.callee(c, f) or {}).get('externC') for c in pr.calls(f['body']) or [{}])]
+        for f in fs:
+            g = CFG(f)
+            pname = f['params'][-1]['name'] if qn.endswith('reduce') else [p['name'] for p in f['params'] if p['name'] == 'p'][0]
+            fixes = [nd for nd in g.stmt_nodes() for c in pr.calls(nd.ast)
+                     if c['name'] == fix and pr.canon(c['this']) == 'this->val' and pr.norm_obj(pr.canon(c['args'][-1])) == 'P:' + pname]
+            if not fixes:
+                ctx.ob(rule, False, 'canon|%s|missing' % f['qn'][-30:], loc_str(f),
+                       '%s has no `%s(..., p)` correction step' % (f['qn'], fix), cfg=cfg_name)
+                continue
+            n += 1
+            # boolean local flags (carry / borrow / shift_out)
+            bad = []
+            for cmpv in (-1, 0, 1):
+                for flag in (0, 1):
+                    def oracle(nd):
+                        e = strip(nd.ast)
+                        cs = [c for c in pr.calls(e) if c['name'] == 'compare']
+                        if cs:
+                            return bool(cond_with_call_value(e, cs[0], cmpv))
+                        # flag test: a local (possibly compared with 0)
+                        if e.get('k') == 'ref':
+                            return bool(flag)
+                        if e.get('k') == 'bin' and e.get('op') in ('!=', '==') and 'cv' in strip(e['rhs']):
+                            v = (flag != int(strip(e['rhs'])['cv'])) if e['op'] == '!=' else (flag == int(strip(e['rhs'])['cv']))
+                            return bool(v)
+                        raise ValueError('unrecognised condition at %s' % loc_str(nd.ast))
+                    try:
+                        visited = _walk_cfg(g, g.entry.id, oracle)
+                    except ValueError as ex:
+                        bad.append(str(ex))
+                        continue
+                    reached = any(fx.id in visited for fx in fixes)
+                    if reached != bool(want(cmpv, flag)):
+                        bad.append('compare=%d, carry/borrow=%d: correction %s' % (cmpv, flag, 'applied' if reached else 'skipped'))
+            ctx.ob(rule, not bad, 'canon|%s' % f['qn'].replace('embedded_pairing::core::', ''), loc_str(f),
+                   '%s: the `%s p` correction must be applied exactly when the intermediate result is >= p (or the carry/borrow is set), '
+                   'else results are not the canonical representative: %s' % (f['qn'], fix, '; '.join(bad[:3])), cfg=cfg_name,
+                   sample=dict(config=cfg_name, function=f['qn'], correction=fix, cases_checked=6))
+    ctx.floor('%s correction steps[%s]' % (rule, cfg_name), n, 4)
